@@ -38,6 +38,8 @@ def rnb(repo: Repo) -> List[Ob]:
         ann = annotation_nodes(fn)
         lam = lambda_params(fn)
         mod = fi.module
+        open_module = any(isinstance(st, ast.ImportFrom) and any(a.name == "*" for a in st.names) and not (st.module or "").startswith("photon_weave") and st.level == 0
+                          for st in ast.walk(mod.tree))
         class_names = set()
         if fi.cls is not None:
             # class-body names are NOT visible from method bodies; nothing to add
@@ -55,8 +57,10 @@ def rnb(repo: Repo) -> List[Ob]:
                 continue
             if name in mod.runtime_names or name in BUILTINS:
                 continue
-            if name in ("__class__",):
+            if name in ("__class__", "__file__", "__name__", "__doc__", "__package__", "__spec__", "__loader__", "__path__"):
                 continue
+            if open_module and name not in mod.typecheck_names:
+                continue          # `from <external> import *` may bind it
             why = "bound only under `if TYPE_CHECKING:`" if name in mod.typecheck_names else "not bound anywhere"
             bad_names.setdefault(name, (n, why))
         for name, (n, why) in sorted(bad_names.items()):
